@@ -195,6 +195,22 @@ func (s *Sched) Step() int          { return s.step }
 func (s *Sched) SimNanos() int64    { return int64(time.Since(s.start)) }
 func (s *Sched) Signature() uint64  { return s.sigH.U64() }
 func (s *Sched) SetFair(f bool)     { s.fair = f }
+
+// AdvanceClock lets the fake clock of the bubble run for at most d, or until a
+// task that was blocked on a timer comes back to a scheduling point. It is
+// called from an external event, that is on the scheduler's own goroutine
+// while every task is parked: the bubble is then durably blocked and time
+// jumps to the next timer.
+func (s *Sched) AdvanceClock(d time.Duration) {
+	select {
+	case <-s.arrival:
+	default:
+	}
+	select {
+	case <-s.arrival:
+	case <-time.After(d):
+	}
+}
 func (s *Sched) Stop(why string) {
 	if !s.stop {
 		s.stop, s.stopWhy = true, why
